@@ -278,3 +278,24 @@ Print Assumptions C08_build_outputs_are_chain_images.
 Theorem Gen_annotations_clear : chk_annotations_clear = true.
 Proof. exact gen_annotations_clear. Qed.
 Print Assumptions Gen_annotations_clear.
+
+(* Who selected whom before a chain still does after it. A selecting object s (workload, Service, NetworkPolicy,
+   PDB) and a workload w that go through the SAME chain of directives (any number of layers, keys may repeat, no
+   custom fields): if s's selector was met by w's pod labels, it still is. Hypotheses: a selector row of the
+   default table matches s and a create=true pod-template row matches w (Gen_canonical_covered: true for current
+   apiVersions), w is a mapping without a sequence on its pod-label path, and the pairs of entries WITHOUT
+   includeSelectors do not fight s's selector ([good], the complement of the documented-behaviour finding). *)
+Theorem C08_selects_preserved_chain_partial :
+  forall (nonstr : string -> bool) (ds : list dirs) (s w s' w' : node) (sp tp : string),
+    (forall d, In d ds -> dir_ok d) ->
+    (forall d, In d ds -> forall e, In e (d_labels d) -> ld_selectors e = false ->
+                          good (sel_of s) (chain_sel_pairs ds) (ld_pairs e)) ->
+    sel_path_of s = Some sp -> tmpl_path_of w = Some tp ->
+    is_map w = true -> no_seq_along (path_splitter tp) w = true ->
+    has_exact (path_splitter sp) gen_common_labels_fs s = true ->
+    has_create (path_splitter tp) gen_common_labels_fs w = true ->
+    selects s w ->
+    apply_chain nonstr default_tc ds s = Ok s' -> apply_chain nonstr default_tc ds w = Ok w' ->
+    selects s' w'.
+Proof. exact selects_preserved_chain. Qed.
+Print Assumptions C08_selects_preserved_chain_partial.
